@@ -291,6 +291,10 @@ func (r *Run) Finish() {
 	r.mu.Unlock()
 	b, _ := json.MarshalIndent(ev, "", " ")
 	evdir := filepath.Join(VerifRoot(), "evidence")
+	if v := os.Getenv("VERIF_EVIDENCE_DIR"); v != "" {
+		// runs against a scratch worktree (VERIF_REPO) or replays must not overwrite the evidence of /repo runs
+		evdir = v
+	}
 	_ = os.MkdirAll(evdir, 0o755)
 	tmp := filepath.Join(evdir, "."+r.Prop+".json.tmp")
 	if err := os.WriteFile(tmp, b, 0o644); err == nil {
